@@ -152,7 +152,7 @@ def note_known(ctx, names, devs):
 
 PLANS = {
     # property: (families quick, families thorough-extra, aspects judged)
-    "C01": (["flat", "nest1", "nest2", "nest3", "inline1", "inline2", "spread", "dups", "args", "ops", "dirvars", "inputs"], [], {"data", "opchoice"}),
+    "C01": (["flat", "nest1", "nest2", "nest3", "inline1", "inline2", "spread", "dups", "args", "ops", "dirvars", "inputs", "abstract", "absops"], [], {"data", "opchoice"}),
     "C06": (["fault0", "fault1", "faultnth"], ["fault2"], {"errors", "data"}),
     "C09": (["dirs", "dirvars"], [], {"data", "calls"}),
     "C10": (["defect", "defectabs"], [], {"errors_cover", "calls", "data", "opchoice"}),
@@ -245,7 +245,7 @@ def run(ctx):
         quick, more, aspects = PLANS[ctx.prop]
         fams = quick + (more if ctx.tier == "thorough" else [])
         vecs, uni, devs = enumerate_cases(ctx, fams)
-        rep = replay(ctx, vecs, uni, "replay", strategies="iface,any,refl" if ctx.prop == "C10" else "iface,any")
+        rep = replay(ctx, vecs, uni, "replay", strategies="iface,any,refl" if ctx.prop in ("C10", "C01") else "iface,any")
         absorb(ctx, rep, "replay", aspects, devs, ctx.prop)
         record_and_judge(ctx, uni, "record", aspects, devs, ctx.prop, 1500 if ctx.tier == "quick" else 12000,
                          universes=12 if ctx.tier == "quick" else 60)
